@@ -64,7 +64,7 @@ def group_names(rng, n, awkward=0.35):
     return out
 
 
-def gen_spec(rng: random.Random, *, allow_times=True, plain_groups=False, max_groups=4, cheap=False) -> dict:
+def gen_spec(rng: random.Random, *, allow_times=True, plain_groups=False, max_groups=4, cheap=False, misconfig=False) -> dict:
     """One evaluator configuration.  `cheap` keeps to fast metrics (used where the schedule,
     not the numerics, is being explored)."""
     inp = rng.choice(["SEMANTIC", "UNMATCHED_INSTANCE", "MATCHED_INSTANCE", "MATCHED_INSTANCE"])
@@ -94,6 +94,15 @@ def gen_spec(rng: random.Random, *, allow_times=True, plain_groups=False, max_gr
         dm = rng.choice(inst)
         thr = rng.choice([0.5, 0.3, 0.8, 0.9]) if dm in ("DSC", "IOU", "clDSC") else rng.choice([0.5, 1.0, 2.0])
         spec["decision"] = [dm, thr]
+    elif misconfig and rng.random() < 0.15:
+        # a misconfigured evaluator: its decision metric is not among its instance metrics, so
+        # every evaluation that reaches the instance phase is refused - which must leave every
+        # other object (and the shared default metric lists) as they were
+        outside = [m for m in ("DSC", "IOU", "ASSD", "RVD", "clDSC") if m not in inst]
+        if outside:
+            dm = rng.choice(outside)
+            spec["decision"] = [dm, 0.5]
+            spec["misconfigured"] = True
     if rng.random() < 0.5:
         used = sorted(set(inst) | set(spec["glob_metrics"] if spec["glob_metrics"] is not None else ["DSC"]) | {"DSC", "IOU"})
         if spec["matcher"]:
